@@ -130,7 +130,7 @@ func genCase(t *rapid.T) Case {
 	}
 	for g := 0; g < c.GPUs; g++ {
 		m := MemCfg{
-			Banks:          rapid.IntRange(1, 2).Draw(t, "banks"),
+			Banks:          rapid.IntRange(1, 4).Draw(t, "banks"),
 			InterleaveLog2: rapid.IntRange(6, 8).Draw(t, "ilv"),
 			Width:          rapid.IntRange(1, 4).Draw(t, "width"),
 			TopBuf:         rapid.SampledFrom([]int{1, 2, 4, 16}).Draw(t, "topbuf"),
@@ -305,10 +305,33 @@ func RunCase(c Case) (res stats.Result) {
 	// model of every GPU's storage
 	window := c.window()
 	model := make([][]byte, c.GPUs)
-	storages := make([]*mem.Storage, c.GPUs)
+	// every memory bank has a storage of its own: data sent to a bank that does
+	// not own the address is not seen by a reader that follows the mapping
+	initial := make([][]byte, c.GPUs)
+	storages := make([][]*mem.Storage, c.GPUs)
+	owner := func(g int, addr uint64) int {
+		return int(addr >> uint(c.Mem[g].InterleaveLog2) % uint64(c.Mem[g].Banks))
+	}
+	readMapped := func(g int, addr, n uint64) []byte {
+		out := make([]byte, 0, n)
+		ilv := uint64(1) << uint(c.Mem[g].InterleaveLog2)
+		for n > 0 {
+			l := ilv - addr%ilv
+			if l > n {
+				l = n
+			}
+			d, err := storages[g][owner(g, addr)].Read(addr, l)
+			if err != nil {
+				panic("harness: " + err.Error())
+			}
+			out = append(out, d...)
+			addr += l
+			n -= l
+		}
+		return out
+	}
 	for g := 0; g < c.GPUs; g++ {
 		model[g] = make([]byte, window)
-		storages[g] = mem.NewStorage(1 << 30)
 		// every storage holds data everywhere in the window, also outside the
 		// GPU's own range, so that a stray write anywhere is visible
 		for i := range model[g] {
@@ -317,8 +340,13 @@ func RunCase(c Case) (res stats.Result) {
 		for p := 0; p < c.PagesPerGPU; p++ {
 			copy(model[g][c.pageAddr(g, p):], pageBytes(c.Pages[g][p], c.PageSize))
 		}
-		if err := storages[g].Write(0, model[g]); err != nil {
-			panic("harness: " + err.Error())
+		initial[g] = append([]byte(nil), model[g]...)
+		for b := 0; b < c.Mem[g].Banks; b++ {
+			st := mem.NewStorage(1 << 30)
+			if err := st.Write(0, model[g]); err != nil {
+				panic("harness: " + err.Error())
+			}
+			storages[g] = append(storages[g], st)
 		}
 	}
 
@@ -335,7 +363,7 @@ func RunCase(c Case) (res stats.Result) {
 				WithLatency(c.Mem[g].Latency[b]).
 				WithWidth(c.Mem[g].Width).
 				WithTopBufSize(c.Mem[g].TopBuf).
-				WithStorage(storages[g]).
+				WithStorage(storages[g][b]).
 				Build(fmt.Sprintf("GPU[%d].DRAM[%d]", g+1, b))
 			top := mc.GetPortByName("Top")
 			finder.LowModules = append(finder.LowModules, top.AsRemote())
@@ -447,10 +475,7 @@ func RunCase(c Case) (res stats.Result) {
 					}
 				}
 				want := append([]byte(nil), model[r.Src][c.pageAddr(r.Src, r.SrcPage):c.pageAddr(r.Src, r.SrcPage)+uint64(c.PageSize)]...)
-				got, err := storages[g].Read(c.pageAddr(g, r.DstPage), uint64(c.PageSize))
-				if err != nil {
-					panic("harness: " + err.Error())
-				}
+				got := readMapped(g, c.pageAddr(g, r.DstPage), uint64(c.PageSize))
 				if !bytes.Equal(got, want) {
 					off := firstDiff(got, want)
 					problems = append(problems, fmt.Sprintf(
@@ -637,13 +662,22 @@ func RunCase(c Case) (res stats.Result) {
 		}
 	}
 	for g := 0; g < c.GPUs; g++ {
-		got, err := storages[g].Read(0, window)
-		if err != nil {
-			panic("harness: " + err.Error())
-		}
+		got := readMapped(g, 0, window)
 		if !bytes.Equal(got, model[g]) {
 			a := firstDiff(got, model[g])
 			return fail("final storage of GPU %d differs from the model at 0x%x (%s): got %02x want %02x", g, a, c.describe(uint64(a)), got[a], model[g][a])
+		}
+		// what a bank holds at addresses it does not own is never touched
+		for b := 0; b < c.Mem[g].Banks; b++ {
+			raw, err := storages[g][b].Read(0, window)
+			if err != nil {
+				panic("harness: " + err.Error())
+			}
+			for a := uint64(0); a < window; a++ {
+				if owner(g, a) != b && raw[a] != initial[g][a] {
+					return fail("memory bank %d of GPU %d was written at 0x%x (%s), an address that belongs to bank %d", b, g, a, c.describe(a), owner(g, a))
+				}
+			}
 		}
 	}
 	return res
